@@ -114,6 +114,8 @@ type World struct {
 	preEndBal     map[string]sdk.Int
 	booting       bool
 	ByzVals       map[string]bool
+	lastKeyMsg    map[string]*mhub2types.MsgDelegateKeys
+	keyModels     map[string]*keyModel
 	BlockEvents   []abci.Event // begin+end block events of the current block (replica 0)
 }
 
